@@ -3,7 +3,7 @@
    assumptions. The models (Geom/GeomModel.v) mirror every notifyVerticesDelete override and
    NifFile::DeleteVertsForShape line by line on top of the utility models of C18. *)
 From NiflyVerif Require Import Res UtilModel UtilSpec EraseProofs GeomModel GeomBase GeomSpec GeomProofs
-  GeomSkinProofs.
+  GeomSkinProofs GeomPartProofs GeomStripProofs RefitProofs GeomShapeProofs GeomTwice.
 Local Open Scope N_scope.
 
 (* ---- NiTriShapeData (NiTriShape of OB / FO3 / SK): for every well-formed data block and every
@@ -42,6 +42,22 @@ Theorem C09_lines_delete : forall g idx,
   sorted_lt idx -> gd_kind g = GKLines -> gd_wf g = true -> gd_delete g idx = Ok (gd_lines_spec g idx).
 Proof. exact gd_lines_delete_ok. Qed.
 Print Assumptions C09_lines_delete.
+
+(* ---- NiTriStripsData. The code itself says its strip deletion "is not healthy": a point is simply
+   taken out of its strip, so windows that did not exist before may appear. What holds, and is
+   proved: every strip keeps exactly its surviving points, re-indexed, in order; hence every strip
+   point is below the new vertex count and the strip lengths agree with the strips (gd_wf). Nothing
+   is claimed about the triangles the strips then denote. *)
+Theorem C09_tristrips_delete : forall g idx,
+  sorted_lt idx -> gd_kind g = GKTriStrips -> gd_wf g = true ->
+  gd_delete g idx = Ok (gd_tristrips_spec g idx).
+Proof. exact gd_tristrips_delete_ok. Qed.
+Print Assumptions C09_tristrips_delete.
+
+Theorem C09_tristrips_indices_valid : forall g idx,
+  gd_kind g = GKTriStrips -> gd_wf g = true -> gd_wf (gd_tristrips_spec g idx) = true.
+Proof. exact gd_tristrips_spec_wf. Qed.
+Print Assumptions C09_tristrips_indices_valid.
 
 (* ---- BSTriShape (SSE / FO4 / FO76), BSDynamicTriShape, BSMeshLODTriShape *)
 Theorem C09_bstrishape_delete : forall b idx,
@@ -99,6 +115,116 @@ Theorem C09_lockednorm_in_range : forall idx nv v,
 Proof. exact locked_spec_lt. Qed.
 Print Assumptions C09_lockednorm_in_range.
 
+(* ---- NiSkinPartition. A partition is "prepared" when it has no strips and both its vertex map and
+   its triangle list are present ([part_wf]; this is what UpdateSkinPartitions and a loaded SSE / LE
+   file give). For such a partition the loop keeps the vertex-map entries of surviving vertices,
+   re-indexed, the per-vertex weights and bone indices at the same positions, and the triangles
+   none of whose corners was deleted, re-indexed (through the vertex map when the partition stores
+   mapped indices). [n] is the size of the collapse map the code derives from the largest index. *)
+Theorem C09_partition_delete : forall idx n nv mapped p,
+  sorted_lt idx -> n <= 65536 -> Forall (fun v => v < n) (p_vmap p) ->
+  (mapped = false -> forallb (tri_lt n) (p_tris p) = true) -> part_wf nv mapped p = true ->
+  part_delete mapped (collapse_spec idx n) p = Ok (part_spec idx mapped p).
+Proof. exact part_delete_ok. Qed.
+Print Assumptions C09_partition_delete.
+
+(* ... and stays prepared with all indices below the new vertex count, unless it lost every
+   triangle (then RemoveEmptyPartitions drops it, see C09_skin_delete) *)
+Theorem C09_partition_wf_preserved : forall idx nv mapped p,
+  part_wf nv mapped p = true -> p_nt (part_spec idx mapped p) <> 0 ->
+  part_wf (rank idx nv) mapped (part_spec idx mapped p) = true.
+Proof. exact part_spec_wf. Qed.
+Print Assumptions C09_partition_wf_preserved.
+
+Theorem C09_skinpartition_delete : forall idx nv sp,
+  idx <> [] -> sorted_lt idx -> skinpart_wf nv sp = true ->
+  skinpart_delete sp idx =
+  Ok (mkSkinpart (sp_np sp) (if isnil (sp_vdata sp) then sp_nv sp else vlen (erase_spec (sp_vdata sp) idx))
+                 (erase_spec (sp_vdata sp) idx)
+                 (map (part_spec idx (sp_mapped sp)) (sp_parts sp)) (sp_mapped sp) []).
+Proof. exact skinpart_delete_ok. Qed.
+Print Assumptions C09_skinpartition_delete.
+
+(* ---- the skin instance: NiSkinData, NiSkinPartition followed by RemoveEmptyPartitions, and the
+   BSDismemberSkinInstance partition list kept aligned with the partitions that remain *)
+Theorem C09_skin_delete : forall idx nv k,
+  idx_ok idx -> nv <= 65536 -> skin_wf nv k = true -> skin_delete k idx = Ok (skin_spec idx k).
+Proof. exact skin_delete_ok. Qed.
+Print Assumptions C09_skin_delete.
+
+Theorem C09_skin_wf_preserved : forall idx nv k,
+  nv < 65536 -> skin_wf nv k = true -> skin_wf (rank idx nv) (skin_spec idx k) = true.
+Proof. exact skin_spec_wf. Qed.
+Print Assumptions C09_skin_wf_preserved.
+
+(* ---- BSSubIndexTriShape: vertex data and triangles as for BSTriShape; the segment tables are
+   re-fitted ([bs_sits_spec], see C17 for what the re-fit keeps and what it breaks). Segment and
+   sub-segment ranges stay inside the new triangle list: C17_refit_keeps_ranges. *)
+Theorem C09_bssubindex_delete : forall b idx,
+  sorted_lt idx -> bs_kind b = BSSubIndex -> bs_core_wf b = true -> seg_tables_wf b = true ->
+  bs_delete b idx = Ok (bs_sits_spec b idx).
+Proof. exact bs_sits_delete_ok. Qed.
+Print Assumptions C09_bssubindex_delete.
+
+(* ---- NifFile::DeleteVertsForShape as a whole, for every geometry kind (NiTriShapeData,
+   NiTriStripsData, BSTriShape, BSDynamicTriShape, BSMeshLODTriShape, BSSubIndexTriShape) with or
+   without a skin instance, with LOCKEDNORM lists ([shape_wf]): no fault, and the result is
+   [shape_spec] = the per-block results above *)
+Theorem C09_delete_verts : forall s idx,
+  idx_ok idx -> shape_wf s = true -> exists flag, delete_verts s idx = Ok (shape_spec idx s, flag).
+Proof. exact delete_verts_ok. Qed.
+Print Assumptions C09_delete_verts.
+
+(* every index anywhere below the new vertex count, counters = lengths: the invariant is kept *)
+Theorem C09_shape_wf_preserved : forall idx s, shape_wf s = true -> shape_wf (shape_spec idx s) = true.
+Proof. exact shape_spec_wf. Qed.
+Print Assumptions C09_shape_wf_preserved.
+
+Theorem C09_new_vertex_count : forall idx s, shape_nv (shape_spec idx s) = rank idx (shape_nv s).
+Proof. exact shape_spec_nv. Qed.
+Print Assumptions C09_new_vertex_count.
+
+(* histories: any number of consecutive deletions *)
+Theorem C09_delete_history : forall steps s, shape_wf s = true -> Forall idx_ok steps ->
+  exists s', delete_history s steps = Ok s' /\ shape_wf s' = true.
+Proof. exact delete_history_ok. Qed.
+Print Assumptions C09_delete_history.
+
+(* ---- deleting twice = deleting the union of the first list and the second list translated back
+   ([union2], strictly ascending and inside the vertex range again) *)
+Theorem C09_union_sorted : forall idx1 idx2 n, sorted_lt (union2 idx1 idx2 n).
+Proof. exact union2_sorted. Qed.
+Print Assumptions C09_union_sorted.
+
+Theorem C09_erase_twice : forall (A : Type) (v : list A) idx1 idx2,
+  erase_spec (erase_spec v idx1) idx2 = erase_spec v (union2 idx1 idx2 (vlen v)).
+Proof. exact @erase_spec_twice. Qed.
+Print Assumptions C09_erase_twice.
+
+Theorem C09_tris_twice : forall idx1 idx2 n tris, forallb (tri_lt n) tris = true ->
+  tris_spec idx2 (tris_spec idx1 tris) = tris_spec (union2 idx1 idx2 n) tris.
+Proof. exact tris_spec_twice. Qed.
+Print Assumptions C09_tris_twice.
+
+Theorem C09_trishape_twice : forall g idx1 idx2, gd_kind g = GKTriShape -> gd_wf g = true ->
+  gd_trishape_spec (gd_trishape_spec g idx1) idx2 = gd_trishape_spec g (union2 idx1 idx2 (vlen (gd_verts g))).
+Proof. exact gd_trishape_spec_twice. Qed.
+Print Assumptions C09_trishape_twice.
+
+Theorem C09_bstrishape_twice : forall b idx1 idx2, bs_core_wf b = true ->
+  let u := union2 idx1 idx2 (vlen (bs_vdata b)) in
+  bs_vdata (bs_base_spec (bs_base_spec b idx1) idx2) = bs_vdata (bs_base_spec b u) /\
+  bs_tris (bs_base_spec (bs_base_spec b idx1) idx2) = bs_tris (bs_base_spec b u) /\
+  bs_nv (bs_base_spec (bs_base_spec b idx1) idx2) = bs_nv (bs_base_spec b u) /\
+  bs_nt (bs_base_spec (bs_base_spec b idx1) idx2) = bs_nt (bs_base_spec b u).
+Proof. exact bs_base_spec_twice. Qed.
+Print Assumptions C09_bstrishape_twice.
+
+Theorem C09_weights_twice : forall idx1 idx2 n ws, forallb (fun x => fst x <? n) ws = true ->
+  weights_spec idx2 (weights_spec idx1 ws) = weights_spec (union2 idx1 idx2 n) ws.
+Proof. exact weights_spec_twice. Qed.
+Print Assumptions C09_weights_twice.
+
 (* ---- non-vacuity: a well-formed NiTriShapeData, a BSTriShape and a bone, with results *)
 Definition C09_ex_gdata : gdata :=
   mkGdata GKTriShape 5 [10; 11; 12; 13; 14] [20; 21; 22; 23; 24] [] [] [] [[30; 31; 32; 33; 34]]
@@ -115,4 +241,26 @@ Example C09_example_skindata :
   skindata_delete [mkBone 3 [(0, 7); (1, 8); (4, 9)]] [1; 3] = Ok [mkBone 2 [(0, 7); (2, 9)]].
 Proof.
   repeat split; try reflexivity; try discriminate; repeat constructor.
+Qed.
+
+(* a skinned NiTriShape with NiSkinData, one mapped partition, a dismember list and a LOCKEDNORM
+   list: well-formed, and the orchestrator's result on [1; 3] *)
+Definition C09_ex_shape : shape :=
+  mkShape (Some C09_ex_gdata) None
+          (Some (mkSkin (Some [mkBone 3 [(0, 7); (1, 8); (4, 9)]])
+                        (Some (mkSkinpart 1 0 []
+                                 [mkPart 5 3 0 [0; 1; 2; 3; 4] true [50; 51; 52; 53; 54] false [] [] true []
+                                         [(0, 1, 2); (2, 3, 4); (0, 2, 4)] []] true []))
+                        (Some [32])))
+          [[4; 1; 0]].
+
+Example C09_example_shape :
+  shape_wf C09_ex_shape = true /\ idx_ok [1; 3] /\
+  exists s', delete_verts C09_ex_shape [1; 3] = Ok (s', false) /\ shape_wf s' = true /\
+    sh_locked s' = [[0; 2]] /\
+    option_map gd_tris (sh_gdata s') = Some [(0, 1, 2)].
+Proof.
+  split; [vm_compute; reflexivity|].
+  split; [repeat split; try discriminate; repeat constructor|].
+  eexists. split; [vm_compute; reflexivity|]. repeat split; vm_compute; reflexivity.
 Qed.
